@@ -1080,7 +1080,35 @@ func c15Run(c *core.Ctx) {
 	r.runTree(c, fams[last], &idx)
 }
 
+// replay of the text families (assign, indirect): the recorded program is run twice and its output shown next to
+// the expected lines
+func c15TextReplay(raw json.RawMessage) bool {
+	var t struct {
+		Family  string            `json:"family"`
+		Program string            `json:"program"`
+		Files   map[string]string `json:"files"`
+		Expect  []string          `json:"expect"`
+	}
+	if json.Unmarshal(raw, &t) != nil || t.Program == "" || (t.Family != "assign" && t.Family != "indirect") {
+		return false
+	}
+	dir := core.Scratch("c15replay")
+	for run := 0; run < 2; run++ {
+		drv.ClearDir(dir)
+		drv.WriteFiles(dir, t.Files)
+		env := drv.NewText(dir)
+		env.Tx.Flags.SetQuiet(t.Family == "indirect")
+		r := env.Exec(t.Program)
+		env.Close()
+		fmt.Printf("run %d of family %s:\n%s\nprinted %v, error %v, panic %v\nexpected %v\n", run+1, t.Family, t.Program, strings.Fields(r.Out), r.Err, r.Panic, t.Expect)
+	}
+	return true
+}
+
 func c15Replay(c *core.Ctx, payload json.RawMessage) {
+	if c15TextReplay(payload) {
+		return
+	}
 	var p c15Payload
 	if err := json.Unmarshal(payload, &p); err != nil {
 		fmt.Println("bad payload:", err)
